@@ -53,8 +53,10 @@ package main
 //@   trusted
 //@ func openOutput(goarch string) (io.WriteCloser, error)
 //@   trusted
-//@ func writeGoTemplate(w io.Writer, goarch string, syscalls []string) error
-//@   trusted
+// the generated Go file (-format code) is rendered from exactly the list and architecture main computed
+//@ func writeGoTemplate(w io.Writer, goarch string, syscalls []string) error   properties C18
+//@   ghost let prm = p at before call template.Template.Execute#1
+//@   assert @emitted_list {C18} prm.SyscallNames == syscalls && prm.GOARCH == goarch at before call template.Template.Execute#1
 //@ func writeDebugYAML(w io.Writer, syscalls []disasm.Syscall) error
 //@   trusted
 
